@@ -25,11 +25,15 @@ def run(ctx: Ctx) -> None:
         wk: Dict[str, Any] = {"focus": focus} if focus else {}
         if focus is None and k % 6 == 5:
             wk["pool"] = True          # requests that allow pooling (their hand-off fails on arrival: finding F15)
+        if focus is None and k % 12 == 0:
+            wk.update({"dry": True, "far": True})     # vehicles that run dry on the road: the last leg must be reported too
         if focus in (None, "dispatch") and k % 2 == 0:
             wk["dt"] = [37, 45, 60, 90][k % 4] if focus is None else None
             wk = {a: b for a, b in wk.items() if b is not None}
         items.append({"id": f"ev{base + k}", "kind": "events", "seed": 71000 + base + k, "steps": ctx.pick(50, 80), "world_kwargs": wk,
-                      "mix": ["builtin", "builtin+adv", "adv+builtin", "builtin"][k % 4], "weight": 1})
+                      "mix": "adv" if wk.get("dry") else ["builtin", "builtin+adv", "adv+builtin", "builtin"][k % 4], "weight": 1})
+        if wk.get("dry"):
+            items[-1].update({"kinds": ["Reposition", "Reposition", "DispatchBase", "DispatchStation", "Idle"], "p_instr": 0.7})
     files = core.produce(ctx, items)
     cfg = ctx.work / "HiveEvents.cfg"
     cfg.write_text("SPECIFICATION TraceSpec\nPOSTCONDITION Done\nCHECK_DEADLOCK FALSE\n")
